@@ -202,7 +202,7 @@ class Client:
                 return
             await asyncio.sleep(0 if i < 5000 else 0.001)
 
-    async def call(self, kind, a, timeout=20.0):
+    async def call(self, kind, a, timeout=40.0):
         """Run one operation; returns ("ok", result) | ("raise", exc) | ("timeout", None)."""
         try:
             res = await asyncio.wait_for(invoke(self.api, kind, a), timeout)
